@@ -17,7 +17,7 @@ done
 cd /verif || exit 2
 git merge --no-edit -q b-$id >/dev/null 2>&1
 for f in $(git diff --name-only --diff-filter=U); do
-  case $f in evidence/*) git checkout --theirs $f; git add $f;; *) echo "CONFLICT $f"; exit 4;; esac
+  case $f in evidence/*) git checkout --theirs $f; git add $f;; rocq/Gen/*) git checkout --ours $f; git add $f;; *) echo "CONFLICT $f"; exit 4;; esac
 done
 git diff --cached --quiet || git commit -qm "merge $ID fix round"
 for old in "${!map[@]}"; do sed -i "s/$old/${map[$old]}/g" known_findings.d/$ID.json props.d/$ID.json; done
